@@ -293,6 +293,42 @@ def capture_task(task):
     return dict(n=len(captured), fails=fails, changed=changed, python=python)
 
 
+# ------------------------------------------------------------ comments on API elements
+
+def doc_texts():
+    """Benign-but-awkward comment texts (no triple quote, tab or trailing backslash: D9-D11 are judged on the functions)."""
+    words = ['ab', 'x', 'c-d', LONG, '-', '+', '1.', '22.', 'end:', 'q"', 'mid\\dle', 'Zoë', '100%', '{brace}', '<tag>']
+    seps = [' ', '  ', '\n', '\n ', '\n\n', ' \n']
+    out = []
+    for w in words:
+        out.append(w)
+    for a_, s_, b_ in itertools.product(words, seps, words):
+        out.append(a_ + s_ + b_)
+    for a_, b_, c_ in itertools.product(words[:6], words[6:12], words[3:9]):
+        out.append(f'{a_} {b_}\n{c_}')
+    return out
+
+
+def doc_job(offset=0):
+    from .. import apis
+    from ..ref import names as refnames
+    texts = doc_texts()
+    f = apis.baseline_file()
+    comments, kinds = {}, {}
+    i = 0
+    for kind, full, path in desc.element_paths(f):
+        if kind == 'enum_value' and full.endswith('_UNSPECIFIED'):
+            continue
+        comments[full] = texts[(i * 37 + offset * 131) % len(texts)]
+        kinds[full] = kind
+        i += 1
+    desc.add_comments(f, {k: ' ' + v + '\n' for k, v in comments.items()})
+    req = desc.request([f], 'transport=grpc')
+    desc.gate(req)
+    return dict(id=f'docwords{offset}', req=req.SerializeToString(), probe='mc.probes.docwords',
+                probe_args=dict(package=refnames.import_package(apis.P), proto_package=apis.P, comments=comments, kinds=kinds)), len(texts)
+
+
 # ------------------------------------------------------------------------ driver
 
 def run(ctx):
@@ -310,6 +346,7 @@ def run(ctx):
             ctasks.append((ok_edits if not tp else [e for e in ok_edits if e not in ('subpkg_types', 'dep_pkg_types', 'iam_types', 'no_default_host', 'same_basename_imports')],
                            f'transport={tr},metadata{tp}'))
     pool = engine.pool()
+    f_docs = [pool.submit(engine.run_job, doc_job(k)[0], engine.scratch_root()) for k in range(16 if ctx.thorough else 8)]
     f_wrap = [pool.submit(wrap_task, t) for t in tasks]
     f_lay = [pool.submit(layout_task, t) for t in ltasks]
     f_cap = [pool.submit(capture_task, t) for t in ctasks]
@@ -348,6 +385,30 @@ def run(ctx):
     ctx.log(f'captured renderings: {cap["n"]} ({cap["python"]} python), {cap["changed"]} changed by the formatter')
     ctx.state(cap['n'])
     ctx.evaluated(cap['n'])
+    checked = 0
+    for f_doc in f_docs:
+        dres = f_doc.result()
+        if not dres['gen']['ok']:
+            allfails['docwords-generation'] = dict(kind='docwords-generation', text='baseline with comments', params=[], space='docstrings',
+                                                   detail=f'{dres["gen"]["etype"]}: {dres["gen"]["emsg"][:200]}')
+        elif 'probe_error' in dres:
+            raise HarnessError('C20 docwords probe: ' + dres['probe_error'][-1500:])
+        elif dres['obs'].get('import_error'):
+            e = dres['obs']['import_error']
+            allfails['docwords-import'] = dict(kind='docwords-import', text='baseline with comments', params=[], space='docstrings',
+                                               detail=f'{e["etype"]}: {e["emsg"][:200]}')
+        else:
+            dobs = dres['obs']
+            checked += dobs['checked']
+            ctx.state(dobs['checked'])
+            ctx.evaluated(dobs['checked'])
+            for f_ in dobs['failures']:
+                allfails[f'docstring-words|{f_["kind"]}|{features(f_["text"])}'] = dict(
+                    kind='docstring-words', text=f_['text'], params=[f_['element']], space='docstrings', detail=f_['what'] + ': ' + f_.get('doc', '')[:150])
+    ctx.log(f'docstrings: {checked} commented API elements checked')
+    ctx.extra['commented_elements_checked'] = checked
+    if checked < 200 and not allfails:
+        raise HarnessError('C20 docwords collapsed')
     ctx.validated = ctx.states
     for i in range(tot['changed'] + lay['changed'] + cap['changed']):
         if i >= 3:
